@@ -32,9 +32,15 @@ def synthetic_loads(spec):
         elif kind == "mixed_days":
             # heating at night, cooling in the afternoon, every day: both peaks often on the same day
             v = (0.8 * season + 0.5) * (1.0 if hour < 8 else 0.0) - (0.6 - 0.5 * season) * (1.0 if 12 <= hour < 18 else 0.0)
+        elif kind == "switch":
+            # extraction until the end of month `sw`, rejection afterwards: a direction vanishes exactly at a month boundary
+            sw = int(spec.get("switch_month", 4))
+            cum = [0, 744, 1416, 2160, 2880, 3624, 4344, 5088, 5832, 6552, 7296, 8016, 8760]
+            v = (0.4 + 0.3 * daily) if h < cum[sw] else -(0.4 + 0.3 * daily)
         else:
             raise ValueError("unknown synthetic kind " + kind)
-        v += 0.02 * (rnd.random() - 0.5)
+        if v != 0.0:
+            v *= 1.0 + 0.04 * (rnd.random() - 0.5)      # multiplicative noise: exact zeros stay zero
         out.append(round(v * scale, 3))
     return out
 
